@@ -86,6 +86,21 @@ def log_goal(goal):
     return cmp(_logform(P), _logform(Nn)), list(_factors(P)) + list(_factors(Nn))
 
 
+def _side_ok(side_hyps, pt):
+    """hypotheses mentioning variables outside the box: satisfiable together with the point's coordinates?"""
+    if not side_hyps:
+        return True
+    from . import smt
+    eqs = []
+    shared = set()
+    for h in side_hyps:
+        shared |= {v for v in ir.free_vars(h) if v.args[0] in pt}
+    for v in shared:
+        eqs.append(ir.eq(v, ir.const(Fraction(str(float(pt[v.args[0]]))))))
+    sat, _ = smt.satisfiable(list(side_hyps) + eqs, timeout_ms=3000)
+    return sat is True
+
+
 class Result(object):
     def __init__(self, verdict, seconds, boxes, detail='', model=None):
         self.verdict, self.seconds, self.boxes, self.detail, self.model = verdict, seconds, boxes, detail, model
@@ -109,6 +124,9 @@ def prove_box(hyps, goal, box, max_boxes=200000, ufs=None, ufs_iv=None, min_widt
               for k, (a, b) in box.items()}]
     n = 0
     open_boxes = []
+    names = set(box)
+    box_hyps = [h for h in hyps if all(v.args[0] in names for v in ir.free_vars(h))]
+    side_hyps = [h for h in hyps if h not in box_hyps]
     diff = None
     lg = log_goal(goal)
     if lg is not None:
@@ -128,16 +146,19 @@ def prove_box(hyps, goal, box, max_boxes=200000, ufs=None, ufs_iv=None, min_widt
             cache = {}
             dead = False
             allh = True
-            try:
-                for h in hyps:
+            for h in hyps:
+                try:
                     v = ir.evaluate(h, env, ufs_iv, ctx=iv, cache=cache, extended=extended)
-                    if v is False:
-                        dead = True
-                        break
-                    if v is not True:
-                        allh = False
-                if dead:
-                    continue
+                except ir.EvalError:
+                    v = None                   # a hypothesis that cannot be evaluated is simply not used (sound)
+                if v is False:
+                    dead = True
+                    break
+                if v is not True:
+                    allh = False
+            if dead:
+                continue
+            try:
                 g = ir.evaluate(goal, env, ufs_iv, ctx=iv, cache=cache, extended=extended)
             except ir.EvalError:
                 g = None
@@ -166,9 +187,9 @@ def prove_box(hyps, goal, box, max_boxes=200000, ufs=None, ufs_iv=None, min_widt
                 try:
                     mpmath.mp.dps = 50
                     c2 = {}
-                    hv = [ir.evaluate(h, cpt, ufs, cache=c2) for h in hyps]
+                    hv = [ir.evaluate(h, cpt, ufs, cache=c2) for h in box_hyps]
                     gv = ir.evaluate(goal, cpt, ufs, cache=c2)
-                    if all(v is True for v in hv) and gv is False:
+                    if all(v is True for v in hv) and gv is False and _side_ok(side_hyps, cpt):
                         return Result('refuted', time.time() - t0, n,
                                       model={'env': {k: float(v) for k, v in cpt.items()}})
                 except (ir.EvalError, TypeError, ZeroDivisionError, ValueError):
